@@ -254,6 +254,8 @@ package godi
 //@   interferes
 //@   nopanic
 //@   safety[C15,C13,C09]
+//@   unchecked index#2: results[ret.Index] relies on reflect.Value.Call returning NumOut values and on the analysed return indices
+//@   unchecked index#3: results[descriptor.MultiReturnIndex] relies on the index recorded at registration being an output index of the same constructor
 //@   requires recv: s != nil && s.rootProvider != nil && s.rootProvider.analyzer != nil
 //@   ensures[C15] nil_descriptor: descriptor == nil ==> result0 == nil && typeis(result1, "*ValidationError") && ncalls("scope.setInstance") == 0
 //@   ensures[C15] error_means_no_value: result1 != nil ==> result0 == nil
@@ -943,6 +945,8 @@ package godi
 //
 //@ func collection.addService
 //@   safety[C15,C17]
+//@   unchecked nil-iface-call#2: descriptor.Type is non-nil after Validate (the descriptor is not modified in between; lost over the loop frame)
+//@   unchecked nil-iface-call#3: reflect.PointerTo never returns nil
 //@   requires tracked_nonnil: forall i int :: 0 <= i && i < len(r.allDescriptors) ==> r.allDescriptors[i] != nil
 //@   requires maps: regmaps(r) && r.analyzer != nil
 //@   ensures[C15] nil_constructor_rejected: service == nil ==> typeis(result, "*ValidationError") && as(result, "*ValidationError").Cause == ErrConstructorNil && ncalls("collection.registerDescriptor") == 0
